@@ -5,6 +5,7 @@ import faulthandler
 import hashlib
 import importlib
 import json
+import multiprocessing
 import os
 import signal
 import sys
@@ -557,10 +558,48 @@ def _repo_git() -> str:
         return "unknown"
 
 
+def _digest_chunk(prop_id: str, jobs: List[tuple]) -> List[tuple]:
+    out = []
+    for index, params, seed in jobs:
+        try:
+            o = run_one(prop_id, params, seed, None)
+            out.append((index, o.digest, len(o.violations)))
+        except BaseException as error:
+            out.append((index, "HARNESS:" + type(error).__name__, -1))
+    return out
+
+
+def digests(prop_id: str, first: int, count: int, jobs_n: int) -> int:
+    """Prints "<job index> <event-log digest> <violations>" for the seeded jobs first..first+count-1 of the quick
+    plan (enumerated cases first, then seeded runs) - used by tools/determinism to compare interpreters."""
+    mod = load_prop(prop_id)
+    plan = mod.plan("quick")
+    cases = list(plan.get("cases", []))
+    seed = int(os.environ.get("VERIF_SEED", "0") or 0)
+    jobs = []
+    for idx in range(first, first + count):
+        params = cases[idx] if idx < len(cases) else mod.random_params(idx - len(cases), "quick")
+        jobs.append((idx, params, derive_seed(seed, prop_id, idx)))
+    results: List[tuple] = []
+    if jobs_n <= 1:
+        results = _digest_chunk(prop_id, jobs)
+    else:
+        ctx = multiprocessing.get_context("fork")
+        chunks = [jobs[i::jobs_n] for i in range(jobs_n)]
+        with ProcessPoolExecutor(max_workers=jobs_n, mp_context=ctx) as pool:
+            for part in pool.map(_digest_chunk, [prop_id] * len(chunks), chunks):
+                results.extend(part)
+    for index, digest, nviol in sorted(results):
+        print(index, digest, nviol)
+    return 0
+
+
 def main(argv: List[str]) -> int:
     # ./check pins PYTHONHASHSEED=0; determinism is also tested unpinned (tools/determinism).
     if len(argv) >= 2 and argv[0] == "replay":
         return replay(argv[1])
+    if len(argv) >= 4 and argv[0] == "digest":
+        return digests(argv[1].upper(), int(argv[2]), int(argv[3]), int(os.environ.get("HCSIM_JOBS", "1")))
     if len(argv) < 2:
         print("usage: check <ID> quick|thorough [--runs N] [--budget S] [--jobs J] | check replay <file>")
         return 2
